@@ -466,4 +466,530 @@ theorem batchRemove_agree (s : State) (ids : List Nat) (hb : Booked s) (ha : Agr
             exact absurd trivial hok
     rw [this]; exact ha
 
+-- ------------------------------------------------------------------ arrivals: what the seat manager did with the batch
+
+theorem fixedMap_ids_sub (js : List Join) : ∀ e ∈ fixedMap js, ∃ j ∈ js, j.id = e.1 ∧ j.seat = e.2 ∧ j.seat ≠ -1 := by
+  induction js with
+  | nil => intro e he; simp [fixedMap] at he
+  | cons j t ih =>
+    intro e he
+    unfold fixedMap at he
+    simp only at he
+    by_cases h1 : (j.seat == -1) = true
+    · simp only [h1, if_true] at he
+      obtain ⟨k, hk, hke⟩ := ih e he
+      exact ⟨k, List.mem_cons_of_mem _ hk, hke⟩
+    · simp only [h1, Bool.false_eq_true, if_false] at he
+      by_cases h2 : ((fixedMap t).any fun e => e.1 == j.id) = true
+      · simp only [h2, if_true] at he
+        obtain ⟨k, hk, hke⟩ := ih e he
+        exact ⟨k, List.mem_cons_of_mem _ hk, hke⟩
+      · simp only [h2, Bool.false_eq_true, if_false] at he
+        rcases List.mem_cons.mp he with rfl | he'
+        · exact ⟨j, List.mem_cons_self, rfl, rfl, by simpa using h1⟩
+        · obtain ⟨k, hk, hke⟩ := ih e he'
+          exact ⟨k, List.mem_cons_of_mem _ hk, hke⟩
+
+/-- with pairwise different ids nobody overrides anybody: every fixed-seat entry of the batch is in the map -/
+theorem fixedMap_complete (js : List Join) (hd : js.Pairwise (fun a c => a.id ≠ c.id)) :
+    ∀ j ∈ js, j.seat ≠ -1 → (j.id, j.seat) ∈ fixedMap js := by
+  induction js with
+  | nil => intro j hj; cases hj
+  | cons k t ih =>
+    have hp := List.pairwise_cons.mp hd
+    intro j hj hs
+    unfold fixedMap
+    simp only
+    rcases List.mem_cons.mp hj with rfl | hj'
+    · have h1 : (j.seat == -1) = false := by simpa using hs
+      simp only [h1, Bool.false_eq_true, if_false]
+      have h2 : ((fixedMap t).any fun e => e.1 == j.id) = false := by
+        rw [List.any_eq_false]
+        intro e he
+        obtain ⟨q, hq, hqe, _, _⟩ := fixedMap_ids_sub t e he
+        have := hp.1 q hq
+        simp only [beq_iff_eq]
+        rw [← hqe]; exact fun h => this h.symm
+      simp only [h2, Bool.false_eq_true, if_false]
+      exact List.mem_cons_self
+    · have := ih hp.2 j hj' hs
+      by_cases h1 : (k.seat == -1) = true
+      · simp only [h1, if_true]; exact this
+      · simp only [h1, Bool.false_eq_true, if_false]
+        split
+        · exact this
+        · exact List.mem_cons_of_mem _ this
+
+theorem fixedMap_pairwise_ids (js : List Join) : (fixedMap js).Pairwise (fun a c => a.1 ≠ c.1) := by
+  induction js with
+  | nil => simp [fixedMap]
+  | cons j t ih =>
+    unfold fixedMap
+    simp only
+    split
+    · exact ih
+    · split
+      · exact ih
+      · rename_i _ h2
+        refine List.pairwise_cons.mpr ⟨?_, ih⟩
+        intro e he heq
+        apply h2
+        rw [List.any_eq_true]
+        exact ⟨e, he, by simp only [beq_iff_eq]; exact heq.symm⟩
+
+theorem randomIds_complete (js : List Join) : ∀ j ∈ js, j.seat = -1 → j.id ∈ randomIds js := by
+  intro j hj hs
+  unfold randomIds
+  rw [List.mem_map]
+  exact ⟨j, List.mem_filter.mpr ⟨hj, by simp [hs]⟩, rfl⟩
+
+theorem mem_zip_of_mem_left {α β : Type} (l1 : List α) (l2 : List β) (h : l2.length = l1.length) (a : α) (ha : a ∈ l1) :
+    ∃ b, (a, b) ∈ l1.zip l2 := by
+  induction l1 generalizing l2 with
+  | nil => cases ha
+  | cons x t ih =>
+    cases l2 with
+    | nil => simp at h
+    | cons y u =>
+      simp only [List.zip_cons_cons]
+      rcases List.mem_cons.mp ha with rfl | ha'
+      · exact ⟨y, List.mem_cons_self⟩
+      · obtain ⟨b, hb⟩ := ih u (by simpa using h) ha'
+        exact ⟨b, List.mem_cons_of_mem _ hb⟩
+
+/-- the recorded draw of a batch's random seats is legal for the seat manager it is applied to -/
+def BatchLegal (s : State) (js : List Join) (ch : List Int) : Prop :=
+  (randomIds js).isEmpty = false →
+    SM.legalChoice (if (fixedMap js).isEmpty then s.sm else (SM.assign s.sm (fixedMap js)).1) (randomIds js) ch = true
+
+instance (s : State) (js : List Join) (ch : List Int) : Decidable (BatchLegal s js ch) := by
+  unfold BatchLegal; exact inferInstance
+
+/-- what the seat manager holds after an accepted `batchAddPlayers`, seat by seat, and where it put each newcomer -/
+structure Placed (s : State) (js : List Join) (sm' : SM.State) : Prop where
+  maxSeat : sm'.maxSeat = s.sm.maxSeat
+  unique : SM.IdsUnique s.sm → SM.IdsUnique sm'
+  each : ∀ j ∈ js, ∃ seat : Int, 0 ≤ seat ∧ seat < s.sm.maxSeat ∧ SM.idAt sm' seat = some j.id ∧ SM.idAt s.sm seat = none
+  others : ∀ seat : Int, (∀ j ∈ js, SM.idAt sm' seat ≠ some j.id) → SM.idAt sm' seat = SM.idAt s.sm seat
+  fresh : ∀ j ∈ js, ∀ i : Int, 0 ≤ i → i < s.sm.maxSeat → SM.idAt s.sm i ≠ some j.id
+
+theorem find_none_of_not_mem {α : Type} (l : List α) (p : α → Bool) (h : ∀ a ∈ l, p a = false) : l.find? p = none := by
+  rw [List.find?_eq_none]; intro a ha; rw [h a ha]; simp
+
+/-- two rounds of placements (fixed seats, then drawn seats) that satisfy the facts of `assign_ok_facts` /
+`randomAssign_ok_facts` and together cover the batch -/
+theorem placed_of_facts (s : State) (js : List Join) (b1 b2 : List (Nat × Int))
+    (f1e : ∀ e ∈ b1, 0 ≤ e.2 ∧ e.2 < s.sm.maxSeat ∧ SM.idAt s.sm e.2 = none)
+    (f1f : ∀ e ∈ b1, ∀ i : Int, 0 ≤ i → i < s.sm.maxSeat → SM.idAt s.sm i ≠ some e.1)
+    (f1s : b1.Pairwise (fun a c => a.2 ≠ c.2)) (f1i : b1.Pairwise (fun a c => a.1 ≠ c.1))
+    (f2e : ∀ e ∈ b2, 0 ≤ e.2 ∧ e.2 < s.sm.maxSeat ∧ SM.idAt (SM.placeAll s.sm b1) e.2 = none)
+    (f2f : ∀ e ∈ b2, ∀ i : Int, 0 ≤ i → i < s.sm.maxSeat → SM.idAt (SM.placeAll s.sm b1) i ≠ some e.1)
+    (f2s : b2.Pairwise (fun a c => a.2 ≠ c.2)) (f2i : b2.Pairwise (fun a c => a.1 ≠ c.1))
+    (cover : ∀ j ∈ js, (∃ c, (j.id, c) ∈ b1) ∨ (∃ c, (j.id, c) ∈ b2))
+    (only : ∀ e, e ∈ b1 ∨ e ∈ b2 → ∃ j ∈ js, j.id = e.1) :
+    Placed s js (SM.placeAll (SM.placeAll s.sm b1) b2) := by
+  have hm1 := SM.placeAll_maxSeat s.sm b1
+  have id2 := SM.placeAll_id (SM.placeAll s.sm b1) b2 f2s
+  have id1 := SM.placeAll_id s.sm b1 f1s
+  -- an entry's seat holds its id afterwards
+  have at1 : ∀ e ∈ b1, SM.idAt (SM.placeAll s.sm b1) e.2 = some e.1 := by
+    intro e he
+    rw [id1]
+    have : b1.find? (fun x => x.2 == e.2) = some e := by
+      cases hf : b1.find? (fun x => x.2 == e.2) with
+      | none =>
+        rw [List.find?_eq_none] at hf
+        exact absurd (by simp) (hf e he)
+      | some x =>
+        have hx := List.mem_of_find?_eq_some hf
+        have hxs : x.2 = e.2 := by simpa using List.find?_some hf
+        by_cases hxe : x = e
+        · rw [hxe]
+        · exfalso
+          have hsym : ∀ a ∈ b1, ∀ c ∈ b1, a.2 = c.2 → a = c := SM.pairwise_inj (·.2) b1 f1s
+          exact hxe (hsym x hx e he hxs)
+    rw [this]
+  have at2 : ∀ e ∈ b2, SM.idAt (SM.placeAll (SM.placeAll s.sm b1) b2) e.2 = some e.1 := by
+    intro e he
+    rw [id2]
+    have : b2.find? (fun x => x.2 == e.2) = some e := by
+      cases hf : b2.find? (fun x => x.2 == e.2) with
+      | none =>
+        rw [List.find?_eq_none] at hf
+        exact absurd (by simp) (hf e he)
+      | some x =>
+        have hx := List.mem_of_find?_eq_some hf
+        have hxs : x.2 = e.2 := by simpa using List.find?_some hf
+        by_cases hxe : x = e
+        · rw [hxe]
+        · exfalso
+          exact hxe (SM.pairwise_inj (·.2) b2 f2s x hx e he hxs)
+    rw [this]
+  refine ⟨by rw [SM.placeAll_maxSeat, hm1], ?_, ?_, ?_, ?_⟩
+  · intro hu
+    apply SM.placeAll_unique _ b2 (SM.placeAll_unique s.sm b1 hu f1s f1i f1f) f2s f2i
+    intro e he i h0 hn
+    rw [hm1] at hn
+    exact f2f e he i h0 hn
+  · intro j hj
+    rcases cover j hj with ⟨c, hc⟩ | ⟨c, hc⟩
+    · obtain ⟨h0, hn, hnone⟩ := f1e _ hc
+      refine ⟨c, h0, hn, ?_, hnone⟩
+      -- the second round does not touch seat c: it was taken after the first
+      rw [id2]
+      have : b2.find? (fun x => x.2 == c) = none := by
+        apply find_none_of_not_mem
+        intro e he
+        have := (f2e e he).2.2
+        by_cases hec : e.2 = c
+        · rw [hec, at1 _ hc] at this; cases this
+        · simpa using hec
+      rw [this]; exact at1 _ hc
+    · obtain ⟨h0, hn, hnone⟩ := f2e _ hc
+      refine ⟨c, h0, hn, at2 _ hc, ?_⟩
+      rw [id1] at hnone
+      cases hf : b1.find? (fun x => x.2 == c) with
+      | none => rw [hf] at hnone; exact hnone
+      | some x => rw [hf] at hnone; cases hnone
+  · intro seat hno
+    rw [id2]
+    cases hf2 : b2.find? (fun x => x.2 == seat) with
+    | some x =>
+      exfalso
+      have hx := List.mem_of_find?_eq_some hf2
+      have hxs : x.2 = seat := by simpa using List.find?_some hf2
+      obtain ⟨j, hj, hje⟩ := only x (Or.inr hx)
+      apply hno j hj
+      rw [← hxs, at2 x hx, hje]
+    | none =>
+      simp only
+      rw [id1]
+      cases hf1 : b1.find? (fun x => x.2 == seat) with
+      | some x =>
+        exfalso
+        have hx := List.mem_of_find?_eq_some hf1
+        have hxs : x.2 = seat := by simpa using List.find?_some hf1
+        obtain ⟨j, hj, hje⟩ := only x (Or.inl hx)
+        apply hno j hj
+        rw [id2, hf2]
+        simp only
+        rw [← hxs, at1 x hx, hje]
+      | none => rfl
+  · intro j hj i h0 hn
+    rcases cover j hj with ⟨c, hc⟩ | ⟨c, hc⟩
+    · exact f1f _ hc i h0 hn
+    · have := f2f _ hc i h0 hn
+      rw [id1] at this
+      cases hf : b1.find? (fun x => x.2 == i) with
+      | none => rw [hf] at this; exact this
+      | some x =>
+        -- seat i got somebody of the first round; before, it was empty
+        have hx := List.mem_of_find?_eq_some hf
+        have hxs : x.2 = i := by simpa using List.find?_some hf
+        have := (f1e x hx).2.2
+        rw [hxs] at this
+        rw [this]; exact fun h => by cases h
+
+theorem joins_pairwise (js : List Join) (h : SM.allDistinct (js.map (·.id)) = true) : js.Pairwise (fun a c => a.id ≠ c.id) := by
+  have := SM.allDistinct_pairwise _ h
+  rw [List.pairwise_map] at this
+  exact this
+
+/-- the seat manager after an accepted `batchAddPlayers` -/
+theorem batchAdd_ok_placed (s : State) (js : List Join) (ch : List Int) (hl : BatchLegal s js ch)
+    (hok : (batchAdd s js ch).2 = .ok) :
+    Placed s js (batchAdd s js ch).1.sm ∧ js.Pairwise (fun a c => a.id ≠ c.id) := by
+  unfold batchAdd at hok ⊢
+  by_cases hd : SM.allDistinct (js.map (·.id)) = true
+  · simp only [hd, Bool.not_true, Bool.false_eq_true, if_false] at hok ⊢
+    have hpw := joins_pairwise js hd
+    refine ⟨?_, hpw⟩
+    -- first round
+    have r1 : ∃ sm1, (if (fixedMap js).isEmpty then (s.sm, SM.Res.ok) else SM.assign s.sm (fixedMap js)) = (sm1, SM.Res.ok) ∧
+        sm1 = SM.placeAll s.sm (fixedMap js) ∧
+        (∀ e ∈ fixedMap js, 0 ≤ e.2 ∧ e.2 < s.sm.maxSeat ∧ SM.idAt s.sm e.2 = none) ∧
+        (∀ e ∈ fixedMap js, ∀ i : Int, 0 ≤ i → i < s.sm.maxSeat → SM.idAt s.sm i ≠ some e.1) ∧
+        (fixedMap js).Pairwise (fun a c => a.2 ≠ c.2) := by
+      by_cases he : (fixedMap js).isEmpty = true
+      · have hnil : fixedMap js = [] := by simpa using he
+        refine ⟨s.sm, by simp [he], by rw [hnil]; rfl, by rw [hnil]; simp, by rw [hnil]; simp, by rw [hnil]; simp⟩
+      · simp only [he, Bool.false_eq_true, if_false] at hok ⊢
+        cases ha : (SM.assign s.sm (fixedMap js)).2 with
+        | err e => rw [ha] at hok; simp at hok
+        | ok =>
+          obtain ⟨f0, f1, f2, f3⟩ := SM.assign_ok_facts s.sm (fixedMap js) (fixedMap_pairwise_ids js) ha
+          exact ⟨(SM.assign s.sm (fixedMap js)).1, by rw [← ha], f0, f1, f2, f3⟩
+    obtain ⟨sm1, hr1, hsm1, f1e, f1f, f1s⟩ := r1
+    rw [hr1] at hok ⊢
+    simp only at hok ⊢
+    have hl' : (randomIds js).isEmpty = false → SM.legalChoice sm1 (randomIds js) ch = true := by
+      intro hne
+      have := hl hne
+      by_cases he : (fixedMap js).isEmpty = true
+      · simp only [he, if_true] at this hr1
+        have : sm1 = s.sm := by simpa using (Prod.mk.inj hr1).1.symm
+        rw [this]; assumption
+      · simp only [he, Bool.false_eq_true, if_false] at this hr1
+        have : sm1 = (SM.assign s.sm (fixedMap js)).1 := by rw [hr1]
+        rw [this]; assumption
+    -- second round
+    have r2 : ∃ sm2, (if (randomIds js).isEmpty then (sm1, SM.Res.ok) else SM.randomAssign sm1 (randomIds js) ch) = (sm2, SM.Res.ok) ∧
+        ∃ b2, sm2 = SM.placeAll sm1 b2 ∧
+        (∀ e ∈ b2, 0 ≤ e.2 ∧ e.2 < sm1.maxSeat ∧ SM.idAt sm1 e.2 = none) ∧
+        (∀ e ∈ b2, ∀ i : Int, 0 ≤ i → i < sm1.maxSeat → SM.idAt sm1 i ≠ some e.1) ∧
+        b2.Pairwise (fun a c => a.2 ≠ c.2) ∧ b2.Pairwise (fun a c => a.1 ≠ c.1) ∧
+        (∀ x ∈ randomIds js, ∃ c, (x, c) ∈ b2) ∧ (∀ e ∈ b2, e.1 ∈ randomIds js) := by
+      by_cases he : (randomIds js).isEmpty = true
+      · have hnil : randomIds js = [] := by simpa using he
+        refine ⟨sm1, by simp [he], [], rfl, by simp, by simp, by simp, by simp, by rw [hnil]; simp, by simp⟩
+      · simp only [he, Bool.false_eq_true, if_false] at hok ⊢
+        cases ha : (SM.randomAssign sm1 (randomIds js) ch).2 with
+        | err e => rw [ha] at hok; simp at hok
+        | ok =>
+          obtain ⟨g0, g1, g2, g3, g4, g5⟩ := SM.randomAssign_ok_facts sm1 (randomIds js) ch (hl' (by simpa using he)) ha
+          refine ⟨(SM.randomAssign sm1 (randomIds js) ch).1, by rw [← ha], (randomIds js).zip ch, g0, g1, g2, g3, g4, ?_, ?_⟩
+          · intro x hx; exact mem_zip_of_mem_left _ _ g5 x hx
+          · intro e he2; exact (List.of_mem_zip he2).1
+    obtain ⟨sm2, hr2, b2, hsm2, f2e, f2f, f2s, f2i, hcov2, honly2⟩ := r2
+    rw [hr2] at hok ⊢
+    simp only at hok ⊢
+    have hm1 : sm1.maxSeat = s.sm.maxSeat := by rw [hsm1]; exact SM.placeAll_maxSeat _ _
+    suffices key : Placed s js sm2 by
+      split
+      · exact key
+      · exact key
+    rw [hsm2, hsm1]
+    apply placed_of_facts s js (fixedMap js) b2 f1e f1f f1s (fixedMap_pairwise_ids js)
+    · intro e he; have := f2e e he; rw [hm1, hsm1] at this; exact this
+    · intro e he i h0 hn; have := f2f e he i h0 (by rw [hm1]; exact hn); rw [hsm1] at this; exact this
+    · exact f2s
+    · exact f2i
+    · intro j hj
+      by_cases hs : j.seat = -1
+      · right; exact hcov2 j.id (randomIds_complete js j hj hs)
+      · left; exact ⟨j.seat, fixedMap_complete js hpw j hj hs⟩
+    · intro e he
+      rcases he with he | he
+      · obtain ⟨j, hj, hje, _, _⟩ := fixedMap_ids_sub js e he
+        exact ⟨j, hj, hje⟩
+      · have := honly2 e he
+        unfold randomIds at this
+        rw [List.mem_map] at this
+        obtain ⟨j, hj, hje⟩ := this
+        exact ⟨j, (List.mem_filter.mp hj).1, hje⟩
+  · simp [hd] at hok
+
+/-- where the seat manager put a newcomer is where `GetSeatID` finds him -/
+theorem placed_seatOf (s : State) (js : List Join) (sm' : SM.State) (hp : Placed s js sm') (hu : SM.IdsUnique s.sm)
+    (j : Join) (hj : j ∈ js) :
+    0 ≤ SM.seatOf sm' j.id ∧ SM.seatOf sm' j.id < s.sm.maxSeat ∧ SM.idAt sm' (SM.seatOf sm' j.id) = some j.id ∧
+    SM.idAt s.sm (SM.seatOf sm' j.id) = none := by
+  obtain ⟨seat, h0, hn, hid, hnone⟩ := hp.each j hj
+  have := SM.seatOf_eq sm' (hp.unique hu) j.id seat h0 (by rw [hp.maxSeat]; exact hn) hid
+  rw [this]; exact ⟨h0, hn, hid, hnone⟩
+
+/-- **the arrival condition follows from the agreement**: in a table whose seat map, player list and seat manager agree,
+an accepted `batchAddPlayers` (its recorded draw being legal) is given seats the table shows free, one each -/
+theorem arrivalOK_of_agree (s : State) (js : List Join) (ch : List Int) (hb : Booked s) (ha : Agree s)
+    (hl : BatchLegal s js ch) : ArrivalOK s js ch := by
+  intro hok
+  obtain ⟨hp, hpw⟩ := batchAdd_ok_placed s js ch hl hok
+  have hu := sm_unique s hb ha
+  refine ⟨?_, ?_⟩
+  · intro j hj
+    obtain ⟨h0, hn, _, hnone⟩ := placed_seatOf s js _ hp hu j hj
+    exact free_of_sm_none s hb ha _ h0 (by rw [← ha.maxSeat]; exact hn) hnone
+  · refine List.Pairwise.imp_of_mem ?_ hpw
+    intro a c hma hmc hne heq
+    obtain ⟨_, _, hida, _⟩ := placed_seatOf s js _ hp hu a hma
+    obtain ⟨_, _, hidc, _⟩ := placed_seatOf s js _ hp hu c hmc
+    rw [heq, hidc] at hida
+    exact hne (Option.some.inj hida).symm
+
+theorem appendPlayers_ids (sm : SM.State) (js : List Join) (ps : List Player) (m : List Int) (ps' : List Player) (m' : List Int)
+    (hap : appendPlayers sm js ps m = some (ps', m')) : ps'.map (·.id) = ps.map (·.id) ++ js.map (·.id) := by
+  induction js generalizing ps m with
+  | nil =>
+    unfold appendPlayers at hap
+    have := Option.some.inj hap
+    simp only [Prod.mk.injEq] at this
+    rw [← this.1]; simp
+  | cons j t ih =>
+    unfold appendPlayers at hap
+    simp only at hap
+    by_cases h1 : SM.seatOf sm j.id = -1
+    · simp [h1] at hap
+    · simp only [h1, if_false] at hap
+      by_cases hc : 0 ≤ SM.seatOf sm j.id ∧ SM.seatOf sm j.id < m.length
+      · simp only [hc, and_self, if_true] at hap
+        rw [ih _ _ hap]; simp
+      · simp [hc] at hap
+
+theorem occId_set_self (m : List Int) (ps : List Player) (p : Player) (seat : Int) (h0 : 0 ≤ seat) (hl : seat < m.length) :
+    occId (m.set seat.toNat ps.length) (ps ++ [p]) seat = some p.id := by
+  unfold occId
+  rw [seatMapGet_set_self m seat _ h0 hl]
+  simp
+
+theorem occId_set_other (m : List Int) (ps : List Player) (w : MapWF m ps) (p : Player) (seat other : Int) (h0 : 0 ≤ seat)
+    (hne : other ≠ seat) : occId (m.set seat.toNat ps.length) (ps ++ [p]) other = occId m ps other := by
+  unfold occId
+  rw [seatMapGet_set_other m seat other _ h0 hne]
+  cases hg : seatMapGet m other with
+  | none => rfl
+  | some pi =>
+    simp only
+    by_cases hp : 0 ≤ pi
+    · simp only [hp, if_true]
+      obtain ⟨q, hq, _⟩ := w.entries other pi hg hp
+      have hlt : pi.toNat < ps.length := by
+        rcases Nat.lt_or_ge pi.toNat ps.length with h | h
+        · exact h
+        · rw [List.getElem?_eq_none h] at hq; cases hq
+      rw [List.getElem?_append_left hlt]
+    · simp [hp]
+
+/-- the appending loop keeps the agreement: once all newcomers are listed, every seat of the table shows the id the seat
+manager holds there -/
+theorem appendPlayers_agree (sm : SM.State) (js : List Join) (ps : List Player) (m : List Int) (ht : MapTight m ps)
+    (hfree : ∀ j ∈ js, seatMapGet m (SM.seatOf sm j.id) = some (-1))
+    (hpair : js.Pairwise (fun a b => SM.seatOf sm a.id ≠ SM.seatOf sm b.id))
+    (hown : ∀ j ∈ js, SM.idAt sm (SM.seatOf sm j.id) = some j.id)
+    (hrest : ∀ seat : Int, 0 ≤ seat → seat < m.length → (∀ j ∈ js, SM.seatOf sm j.id ≠ seat) → SM.idAt sm seat = occId m ps seat)
+    (ps' : List Player) (m' : List Int) (hap : appendPlayers sm js ps m = some (ps', m')) :
+    ∀ seat : Int, 0 ≤ seat → seat < m.length → SM.idAt sm seat = occId m' ps' seat := by
+  induction js generalizing ps m with
+  | nil =>
+    unfold appendPlayers at hap
+    have := Option.some.inj hap
+    simp only [Prod.mk.injEq] at this
+    obtain ⟨rfl, rfl⟩ := this
+    intro seat h0 hn
+    exact hrest seat h0 hn (fun j hj => by cases hj)
+  | cons j t ih =>
+    unfold appendPlayers at hap
+    simp only at hap
+    by_cases h1 : SM.seatOf sm j.id = -1
+    · simp [h1] at hap
+    · simp only [h1, if_false] at hap
+      by_cases hc : 0 ≤ SM.seatOf sm j.id ∧ SM.seatOf sm j.id < m.length
+      · simp only [hc, and_self, if_true] at hap
+        have hf := hfree j List.mem_cons_self
+        have hp2 := List.pairwise_cons.mp hpair
+        let pj : Player := { id := j.id, seat := SM.seatOf sm j.id, bankroll := j.chips }
+        have hstep := MapTight.append m ps ht pj hc.1 hc.2 hf
+        have hlen : (m.set (SM.seatOf sm j.id).toNat ps.length).length = m.length := by simp
+        intro seat h0 hn
+        have := ih (ps ++ [pj]) (m.set (SM.seatOf sm j.id).toNat ps.length) hstep
+          (by
+            intro k hk
+            have hne : SM.seatOf sm k.id ≠ SM.seatOf sm j.id := fun e => hp2.1 k hk e.symm
+            rw [seatMapGet_set_other m _ _ _ hc.1 hne]
+            exact hfree k (List.mem_cons_of_mem _ hk))
+          hp2.2 (fun k hk => hown k (List.mem_cons_of_mem _ hk))
+          (by
+            intro st s0 sn hno
+            rw [hlen] at sn
+            by_cases hs : st = SM.seatOf sm j.id
+            · rw [hs, hown j List.mem_cons_self]
+              exact (occId_set_self m ps pj _ hc.1 hc.2).symm
+            · rw [occId_set_other m ps ht.1 pj _ st hc.1 hs]
+              apply hrest st s0 sn
+              intro k hk
+              rcases List.mem_cons.mp hk with rfl | hk'
+              · exact fun e => hs e.symm
+              · exact hno k hk')
+          hap seat h0 (by rw [hlen]; exact hn)
+        exact this
+      · simp [hc] at hap
+
+theorem Agree.of_fields {a b : State} (h1 : a.sm.maxSeat = b.sm.maxSeat) (h2 : a.cfg = b.cfg) (h3 : a.seatMap = b.seatMap)
+    (h4 : a.players = b.players) (h5 : ∀ i : Int, 0 ≤ i → i < b.cfg.maxSeat → SM.idAt a.sm i = SM.idAt b.sm i)
+    (w : Agree b) : Agree a := by
+  refine ⟨by rw [h1, h2]; exact w.maxSeat, ?_, by rw [h4]; exact w.ids⟩
+  intro seat h0 hn
+  rw [h2] at hn
+  rw [h5 seat h0 hn, h3, h4]
+  exact w.seats seat h0 hn
+
+/-- a refused `batchAddPlayers` (not a panic) leaves the table's lists alone and the seat manager with the occupants it had -/
+theorem batchAdd_err_fields (s : State) (js : List Join) (ch : List Int) (hu : SM.IdsUnique s.sm)
+    (hne : (batchAdd s js ch).2 ≠ .ok) (hnp : (batchAdd s js ch).2 ≠ .panic) :
+    (batchAdd s js ch).1.sm.maxSeat = s.sm.maxSeat ∧ (batchAdd s js ch).1.cfg = s.cfg ∧
+    (batchAdd s js ch).1.seatMap = s.seatMap ∧ (batchAdd s js ch).1.players = s.players ∧
+    (∀ i : Int, 0 ≤ i → i < s.sm.maxSeat → SM.idAt (batchAdd s js ch).1.sm i = SM.idAt s.sm i) := by
+  unfold batchAdd at hne hnp ⊢
+  by_cases hd : SM.allDistinct (js.map (·.id)) = true
+  · simp only [hd, Bool.not_true, Bool.false_eq_true, if_false] at hne hnp ⊢
+    cases h1 : (if (fixedMap js).isEmpty then (s.sm, SM.Res.ok) else SM.assign s.sm (fixedMap js)).2 with
+    | err e => simp [h1]
+    | ok =>
+      simp only [h1] at hne hnp ⊢
+      cases h2 : (if (randomIds js).isEmpty then ((if (fixedMap js).isEmpty then (s.sm, SM.Res.ok) else SM.assign s.sm (fixedMap js)).1, SM.Res.ok)
+          else SM.randomAssign (if (fixedMap js).isEmpty then (s.sm, SM.Res.ok) else SM.assign s.sm (fixedMap js)).1 (randomIds js) ch).2 with
+      | err e =>
+        simp only [h2, true_and]
+        refine ⟨?_, ?_⟩
+        · by_cases he : (fixedMap js).isEmpty = true
+          · simp [he]
+          · simp only [he, Bool.false_eq_true, if_false] at h1 ⊢
+            obtain ⟨f0, f1, f2, f3⟩ := SM.assign_ok_facts s.sm (fixedMap js) (fixedMap_pairwise_ids js) h1
+            rw [f0]
+            exact (SM.release_restores s.sm hu (fixedMap js) f1 f2 f3 (fixedMap_pairwise_ids js)).2
+        · intro i h0 hn
+          by_cases he : (fixedMap js).isEmpty = true
+          · simp [he]
+          · simp only [he, Bool.false_eq_true, if_false] at h1 ⊢
+            obtain ⟨f0, f1, f2, f3⟩ := SM.assign_ok_facts s.sm (fixedMap js) (fixedMap_pairwise_ids js) h1
+            rw [f0]
+            exact (SM.release_restores s.sm hu (fixedMap js) f1 f2 f3 (fixedMap_pairwise_ids js)).1 i h0 hn
+      | ok =>
+        simp only [h2] at hne hnp ⊢
+        split at hne
+        · rename_i hap; simp only [hap] at hnp; exact absurd rfl hnp
+        · exact absurd rfl hne
+  · simp [hd]
+
+/-- **`UpdateTablePlayers` / `PlayerReserve` arrivals keep seat manager and table in agreement** (the recorded draw being
+legal and the call not having panicked) -/
+theorem batchAdd_agree (s : State) (js : List Join) (ch : List Int) (hb : Booked s) (ha : Agree s)
+    (hl : BatchLegal s js ch) (hnp : (batchAdd s js ch).2 ≠ .panic) : Agree (batchAdd s js ch).1 := by
+  have hu := sm_unique s hb ha
+  have hcfg := batchAdd_cfg s js ch
+  by_cases hok : (batchAdd s js ch).2 = .ok
+  · obtain ⟨hp, hpw⟩ := batchAdd_ok_placed s js ch hl hok
+    have harr := arrivalOK_of_agree s js ch hb ha hl hok
+    rcases batchAdd_shape s js ch with ⟨_, _, hno⟩ | ⟨ps, m, hap, hps, hm, _⟩
+    · exact absurd hok hno
+    · have hu' := hp.unique hu
+      refine ⟨by rw [hp.maxSeat, hcfg]; exact ha.maxSeat, ?_, ?_⟩
+      · intro seat h0 hn
+        rw [hcfg] at hn
+        rw [hps, hm]
+        refine appendPlayers_agree _ js s.players s.seatMap hb.1 harr.1 harr.2
+          (fun j hj => (placed_seatOf s js _ hp hu j hj).2.2.1) ?_ ps m hap seat h0 (by rw [hb.2]; exact hn)
+        intro seat' h0' hn' hnot
+        rw [hb.2] at hn'
+        rw [← ha.seats seat' h0' hn']
+        apply hp.others
+        intro j hj hid
+        exact hnot j hj (SM.seatOf_eq _ hu' j.id seat' h0' (by rw [hp.maxSeat, ha.maxSeat]; exact hn') hid)
+      · rw [hps, appendPlayers_ids _ js s.players s.seatMap ps m hap]
+        rw [List.nodup_append]
+        refine ⟨ha.ids, ?_, ?_⟩
+        · exact List.Pairwise.map _ (fun _ _ h => h) hpw
+        · intro a hma b hmb heq
+          obtain ⟨p, hpm, hpa⟩ := List.mem_map.mp hma
+          obtain ⟨j, hjm, hjb⟩ := List.mem_map.mp hmb
+          obtain ⟨i, hi⟩ := List.getElem?_of_mem hpm
+          have hocc := occ_of_player s.seatMap s.players hb.1.1 i p hi
+          have hr := seatMapGet_range s.seatMap p.seat _ (hb.1.1.players i p hi)
+          rw [hb.2] at hr
+          have := ha.seats p.seat hr.1 hr.2
+          rw [hocc] at this
+          refine hp.fresh j hjm p.seat hr.1 (by rw [ha.maxSeat]; exact hr.2) ?_
+          rw [this, hpa, heq, hjb]
+  · obtain ⟨e1, e2, e3, e4, e5⟩ := batchAdd_err_fields s js ch hu hok hnp
+    exact Agree.of_fields e1 e2 e3 e4 (fun i h0 hn => e5 i h0 (by rw [ha.maxSeat]; exact hn)) ha
+
 end TB
